@@ -47,6 +47,8 @@ def use_repo():
     os.environ.setdefault(GUARD, "1")
     if sys.path[0] != REPO:
         sys.path.insert(0, REPO)
+    import logging
+    logging.disable(logging.CRITICAL)      # the library logs every dropped datagram / handler error
     import mpgameserver
     f = os.path.realpath(mpgameserver.__file__)
     assert f.startswith(os.path.realpath(REPO) + os.sep), (f, REPO)
@@ -240,7 +242,7 @@ class Ctx:
 
     # ------------------------------------------------------- correspondence
     def correspondence(self, layer, driver, cases, impl_fn, nontrivial=None, rule=None,
-                       minimise=True):
+                       minimise=True, post=None):
         """
         cases: list of cases (list of lines, first 'case <id>', last 'end')
         impl_fn(case) -> list of output lines produced by the REAL code (one per op that
@@ -248,6 +250,33 @@ class Ctx:
         """
         if rule and rule not in self.rules:
             self.rules.append(rule)
+        if post is not None:
+            # the same projection is applied to the implementation's and the model's output
+            raw_impl, raw_lean = impl_fn, self.lean
+            impl_fn = lambda case: post(case, raw_impl(case))
+
+            def lean_post(driver_, lines, timeout=900):
+                # lines may hold several cases: project each case's block
+                outs = raw_lean(driver_, lines, timeout)
+                blocks, cur = [], None
+                for ln in lines:
+                    if ln.startswith("case "):
+                        cur = [ln]
+                        blocks.append(cur)
+                    elif cur is not None:
+                        cur.append(ln)
+                by_id = split_cases(outs)
+                res = []
+                for b in blocks:
+                    cid = case_id(b)
+                    res.append("#case " + cid)
+                    res.extend(post(b, by_id.get(cid, [])))
+                return res
+            self.lean = lean_post
+            try:
+                return self.correspondence(layer, driver, cases, impl_fn, nontrivial, rule, minimise, None)
+            finally:
+                self.lean = raw_lean
         lay = self.layers.setdefault(layer, {"cases": 0, "ops": 0, "disagreements": 0})
         impl_outs = {}
         all_lines = []
